@@ -186,3 +186,50 @@ def sentences(rules, rng, n=12, depth=3, budget=9):
         if len(res) >= n:
             break
     return res
+
+
+def expand_text(rules):
+    """The documented plain-BNF expansion (docs/grammar_language.md) as grammar TEXT, including the documented {nops} mark and
+    built-in actions; groups become rules named after their id.  Used to run the REAL parser on the documented form."""
+    lines, done = [], set()
+
+    def ref(it):
+        base = it["id"] if it.get("kind") == "grp" else it["sym"]
+        if it.get("kind") == "grp" and base not in done:
+            done.add(base)
+            rule(base, it["alts"])
+        if not it["mult"]:
+            return base
+        sep = ("_" + it["sep"]) if it.get("sep") else ""
+        one = "%s_1%s" % (base, sep)
+        if it["mult"] in "+*" and one not in done:
+            done.add(one)
+            lines.append("@collect%s\n%s: %s %s%s | %s;" % ("_sep" if sep else "", one, one, (it["sep"] + " ") if sep else "", base, base))
+        if it["mult"] == "+":
+            return one
+        if it["mult"] == "*":
+            zero = "%s_0%s" % (base, sep)
+            if zero not in done:
+                done.add(zero)
+                lines.append("%s: %s {nops} | EMPTY;" % (zero, one))
+            return zero
+        opt = base + "_opt"
+        if opt not in done:
+            done.add(opt)
+            lines.append("@optional\n%s: %s | EMPTY;" % (opt, base))
+        return opt
+
+    def rule(name, alts):
+        body = " | ".join(" ".join(ref(i) for i in alt) if alt else "EMPTY" for alt in alts)
+        lines.append("%s: %s;" % (name, body))
+
+    top = []
+    for name, alts in rules:
+        n0 = len(lines)
+        rule(name, alts)
+        top.append(lines.pop())  # the user rule itself; helpers stay in `lines`
+    out = "\n".join(top + lines) + "\n"
+    terms = sorted(_terms_of([a for _, alts in rules for a in alts]))
+    if terms:
+        out += "terminals\n" + "".join('%s: "%s";\n' % (t, TERMS[t]) for t in terms)
+    return out
